@@ -169,7 +169,8 @@ class SchemaGen:
         k = r.below(10)
         if k < 5:
             d = Decl(ns, base, "struct")
-            d.ctors = [(d.cname, self.fields(d))]
+            # known finding K3b: a masked field of an EMPTY struct type does not compile; random structs are non-empty
+            d.ctors = [(d.cname, self.fields(d) or "pad:int")]
         elif k < 7:
             d = Decl(ns, base, "union")
             for j in range(r.range(2, 4)):
